@@ -29,6 +29,9 @@ CHECKS = {
  "C08": ("other", "whole-package panic-site census: index/slice bounds discharged by linear integer entailment (Fourier-Motzkin over path facts with overflow-aware arithmetic atoms, inductive loop bounds, by-case inlining of length helpers, interprocedural preconditions); nil/reflect/type-assertion/division sites discharged by path-sensitive facts (go/ssa)", "DESIGN.md §3 R-BND/R-NIL/R-REFL/R-CANIF/R-TA/R-DIV, §4 C08",
    "Every instruction of the package that can panic on an argument value - index, slice and string-index expressions (about 110 non-trivial sites), nil dereferences (about 1460), panicking reflect.Value calls, unchecked type assertions, integer divisions - is proved safe on every path for unconstrained 64-bit integers (sums/differences are related to their operands only where overflow is excluded, so MinInt/MaxInt are covered) and arbitrary element values (typed nils of any depth, zero Stacks/Conditions, zero reflect.Values, unexported struct fields), or turned into a precondition checked at every call site; exported entry points may require nothing. Element writes and user-visible element reads on a stack need index >= 1, so the configuration slot cannot be written or returned through any index, and no element write is reachable with an out-of-range index.",
    "Level other: the census is close to a proof of panic freedom but the domains are hand-written. One site assumed (Defrag's truncation index; DESIGN.md). '-k addresses the k-th from the end' is decided only as the proved result range of the index translation; panics inside user closures/String() methods and runtime panics (out of memory, stack overflow through self-containing stacks) are excluded."),
+ "C05": ("other", "loop-latch analysis of the error variable in every comparison loop (path-sensitive states at each comparison call), counter/bound/accessor shape checks, nil-return-only-after-clean-comparisons check, component-coverage check on accepting paths, reflect-method classification + panic-site census restricted to IsEqual's scope (go/ssa)", "DESIGN.md §3 R-LOOPRET/R-COVER/R-REFL, §4 C05",
+   "In every comparison loop a recorded difference cannot be overwritten or dropped (comparisons run only while the error variable is nil; the function returns it), every index from 0 to the length is compared at the same position on both sides and the loop cannot be left early without a difference; no equality function returns nil after a comparison reported a difference; keyword, operator (text+context or both absent), expression, length/capacity, kind and every element take part on accepting paths; comparing cannot panic (typed nils, zero Values, unexported fields, missing keys; every reflect method used is classified).",
+   "Necessary conditions (level other); symmetry and per-kind completeness not decided; the []Stack-leaf gap is documented, not decided."),
  "C06": ("other", "truth-table extraction from path-sensitive return summaries + guarded-store (must-pass-through) analysis + nil/reflect panic-site census (go/ssa)", "DESIGN.md §3 R-TT/R-STOREGUARD/R-NIL, §4 C06",
    "Decides exactly the finite parts of C06: Condition.Valid's return paths are compared row by row (48 feasible rows) with the table the property states; the expression filter and the parenthesis/padding polarity of condition.string likewise; keyword/operator/expression are proved to be written only by their setters and only after the acceptance test, so a rejected argument leaves the previous value; Cond records Valid()'s verdict; String() renders only when Valid()==nil; no setter/constructor can panic on nil, empty or wrongly typed arguments (census of nil/reflect panic sites in their reachable code).",
    "Necessary conditions only (level other). Not covered: the exact rendered text (string-valued functional correctness), user Operator/Stringer code. Trusted: go/ssa lowering, the fact engine and its summaries (checker/engine.go), the rule tables."),
